@@ -413,19 +413,47 @@ class POSet:
         cache_names = ['_cache_leq', '_cache_descendants', '_cache_ancestors',
                        '_cache_children', '_cache_parents']
 
-        for cache_name in cache_names:
+        # Comparisons and the "closed" relations (descendants, ancestors)
+        for cache_name in cache_names[:3]:
             cache_comb = self._combine_caches(
                 self.__dict__[cache_name], self._elements,
                 other.__dict__[cache_name], other._elements,
                 poset_combined._elements
             )
 
-            if drop_notcommon_elements and cache_name in cache_names[1:5]:
+            if drop_notcommon_elements and cache_name in cache_names[1:3]:
+                # Any element of a union may get new relatives from the other operand. So its closed relation
+                # is complete only if the element is common and the relation is cached in both the operands
                 for idx in list(cache_comb):
-                    if poset_combined._elements[idx] not in elements_and:
+                    el = poset_combined._elements[idx]
+                    if el not in elements_and \
+                            or self.index(el) not in self.__dict__[cache_name] \
+                            or other.index(el) not in other.__dict__[cache_name]:
                         del cache_comb[idx]
 
             poset_combined.__dict__[cache_name] = cache_comb
+
+        # The "direct" relations (children, parents) cannot be combined elementwise:
+        # an element between two others may be present in only one of the operands.
+        # So take the maximal descendants (minimal ancestors) from the combined closed relations
+        elements, leq_func = poset_combined._elements, self._leq_func
+        for direct_name, closed_name, is_child in [('_cache_children', '_cache_descendants', True),
+                                                   ('_cache_parents', '_cache_ancestors', False)]:
+            keys_cached = set(self._combine_caches(
+                self.__dict__[direct_name], self._elements,
+                other.__dict__[direct_name], other._elements,
+                poset_combined._elements
+            ))
+            cache_comb = {}
+            for idx, rels in poset_combined.__dict__[closed_name].items():
+                if idx not in keys_cached:
+                    continue
+                if is_child:
+                    direct = {i for i in rels if not any(leq_func(elements[i], elements[j]) for j in rels if j != i)}
+                else:
+                    direct = {i for i in rels if not any(leq_func(elements[j], elements[i]) for j in rels if j != i)}
+                cache_comb[idx] = direct
+            poset_combined.__dict__[direct_name] = cache_comb
 
     def __len__(self):
         return len(self._elements)
